@@ -46,7 +46,13 @@ type Finding struct {
 	Input    string `json:"input,omitempty"`
 }
 
-const verifRoot = "/verif"
+// verifRoot is /verif, or $VERIF_ROOT for background runs from a snapshot (vp run)
+var verifRoot = func() string {
+	if r := os.Getenv("VERIF_ROOT"); r != "" {
+		return r
+	}
+	return "/verif"
+}()
 
 func loadFindings() []Finding {
 	b, err := os.ReadFile(filepath.Join(verifRoot, "known_findings.json"))
